@@ -87,6 +87,11 @@ func (op *OptIAPrefix) FromBytes(data []byte) error {
 
 	length := buf.Read8()
 	ip := net.IP(buf.CopyN(net.IPv6len))
+	if length > 128 {
+		// net.CIDRMask returns a nil mask for such a length: the option would
+		// re-encode with prefix length 0 and then lose the prefix altogether.
+		return fmt.Errorf("invalid IPv6 prefix length %d, must be at most 128", length)
+	}
 
 	if length == 0 {
 		op.Prefix = nil
